@@ -1,6 +1,6 @@
 From Coq Require Import ZArith Reals Lra.
 From Flocq Require Import Core BinarySingleNaN.
-Require Import GV.FloatBase GV.FloatLemmas GV.AngleM GV.AngleProofs.
+Require Import GV.FloatBase GV.FloatLemmas GV.AngleM GV.AngleProofs GV.NewProofs GV.CtorProofs GV.GeonumM GV.GeonumProofs GV.PiBounds GV.TrigProofs GV.DotValue GV.DirProofs.
 Open Scope R_scope.
 Require Import GV.Properties.C03.
 Check C03_spellings : forall a b,
@@ -27,3 +27,6 @@ Check C03_add_assoc : forall a b c, canonp (rem a) -> canonp (rem b) -> canonp (
   Rabs (theta (geometric_add (geometric_add a b) c) - theta (geometric_add a (geometric_add b c)))
     <= 4 * (R_ eps10 + / 2251799813685248).
 Print Assumptions C03_add_assoc.
+Check C03_direction : forall a b, canonp (rem a) -> canonp (rem b) ->
+  Rabs (dirR (geometric_add a b) - (dirR a + dirR b)) <= R_ eps10 + / 2251799813685248 + 1 / 10000000000000000.
+Print Assumptions C03_direction.
